@@ -480,6 +480,10 @@ void WFXMLScanner::scanReset(const InputSource& src)
     // Reset elements lookup table
     fElementLookup->removeAll();
 
+    //  A progressive parse that was abandoned without parseReset() leaves its
+    //  readers behind; flush them so that this parse starts from a clean slate.
+    fReaderMgr.reset();
+
     //  Handle the creation of the XML reader object for this input source.
     //  This will provide us with transcoding and basic lexing services.
     XMLReader* newReader = fReaderMgr.createReader
